@@ -6,6 +6,9 @@ from sa.props import c01
 
 
 def check(ix, rep):
+    from sa.rules import round11 as _r11
+    rep.floor('calls of set_ast inside the interpreter classes', _r11.check_set_ast_callers(ix, rep), 1)
+    rep.floor('sites that clear the ast-installed flag', _r11.check_set_ast_flag_writers(ix, rep), 1)
     mons = {m.kind: m for m in M.standard_monitors(ix)}
     on, off = mons.get('discrete-online'), mons.get('discrete-offline')
     if on is None or off is None:
